@@ -66,6 +66,9 @@ class Func:
     def __eq__(self, o):
         return isinstance(o, Func) and o.qual == self.qual
 
+    def __repr__(self):
+        return "<Func %s>" % self.qual
+
 
 @dataclass
 class Class:
@@ -78,6 +81,16 @@ class Class:
     getters: Dict[str, Func] = field(default_factory=dict)
     setters: Dict[str, Func] = field(default_factory=dict)
     consts: Dict[str, ast.AST] = field(default_factory=dict)     # class-level assigns
+    const_ann: Dict[str, ast.AST] = field(default_factory=dict)  # class-level annotations
+
+    def __repr__(self):
+        return "<Class %s>" % self.qual
+
+    def __hash__(self):
+        return hash(self.qual)
+
+    def __eq__(self, o):
+        return isinstance(o, Class) and o.qual == self.qual
 
 
 @dataclass
@@ -88,6 +101,9 @@ class Module:
     src: str
     node: ast.Module
     imports: Dict[str, str] = field(default_factory=dict)   # local name -> dotted origin
+
+    def __repr__(self):
+        return "<Module %s>" % self.name
 
 
 def norm(node: Any) -> str:
@@ -201,6 +217,7 @@ class Repo:
                     elif isinstance(s2, ast.AnnAssign) and s2.value is not None \
                             and isinstance(s2.target, ast.Name):
                         c.consts[s2.target.id] = s2.value
+                        c.const_ann[s2.target.id] = s2.annotation
                 self._index_body(m, st.body, qual, c, None)
             elif isinstance(st, (ast.If, ast.Try)):
                 # conditional definitions at module level (TYPE_CHECKING ...)
